@@ -63,10 +63,14 @@ class Ctx:
         """Build the harness against /repo's current working tree with the verif tag."""
         out = os.path.join(self.work, "orbtrace-race" if race else "orbtrace")
         cmd = ["go", "build", "-tags", "verif"] + (["-race"] if race else []) + ["-o", out, "./cmd/orbtrace"]
+        env = goenv()
         if os.environ.get("VERIF_COVERDIR"):
             # measurement only (bin/stmtcoverage): which statements of paulmach/orb the harness families execute
-            cmd[2:2] = ["-cover", "-coverpkg=github.com/paulmach/orb/..."]
-        env = goenv()
+            # (the main package has to be among the instrumented ones, or no data is written at all)
+            pk = subprocess.run(["go", "list", "-deps", "-tags", "verif", "./cmd/orbtrace"], cwd=HARNESS, env=env,
+                                stdout=subprocess.PIPE, text=True).stdout.split()
+            cmd[2:2] = ["-cover", "-coverpkg=" + ",".join([q for q in pk if q.startswith("github.com/paulmach/orb")]
+                                                          + ["verifharness/cmd/orbtrace"])]
         src = HARNESS
         if REPO != "/repo":
             # experiments only (bin/seedcheck with SEED_SCRATCH=1): build a private copy of the harness against a
